@@ -296,6 +296,69 @@ def run (s : Screen) (attr : Nat) : List Stmt → Screen
     | .ok s' => run s' attr rest
     | .error _ => run s attr rest
 
+/-! ### statements that fail: VIEW with its attribute arguments, as the sequence of effects of the code -/
+
+/-- `error.range_check(0, 255, attr)`; an omitted argument passes -/
+def attrOk : Option Int → Bool
+  | none => true
+  | some a => decide (0 ≤ a ∧ a ≤ 255)
+
+/-- `view_` + `_set_view` with the fill and border attribute *values*: the state reached and the error raised, if
+    any.  Order of the code: text-mode test, coordinate range checks, attribute range checks - all before the
+    first effect - then `graph_view.unset()`, fill box, border box, `graph_view.set(...)`. -/
+def viewExec (s : Screen) (attr : Nat) (x0 y0 x1 y1 : Int) (absolute : Bool) (fill border : Option Int) :
+    Screen × Option Nat :=
+  if s.textMode then (s, some ifc)
+  else if ¬ (0 ≤ x0 ∧ x0 ≤ s.view.W - 1 ∧ 0 ≤ x1 ∧ x1 ≤ s.view.W - 1) then (s, some ifc)
+  else if ¬ (0 ≤ y0 ∧ y0 ≤ s.view.H - 1 ∧ 0 ≤ y1 ∧ y1 ≤ s.view.H - 1) then (s, some ifc)
+  else if x0 = x1 ∨ y0 = y1 then (s, some ifc)
+  else if ¬ attrOk fill then (s, some ifc)
+  else if ¬ attrOk border then (s, some ifc)
+  else
+    let u := s.view.unset
+    let s1 := { s with view := u }
+    let s2 := if fill.isSome then { s1 with pages := drawTo s1 u attr (drawBoxFilled u x0 y0 x1 y1) } else s1
+    let s3 := if border.isSome then
+        { s2 with pages := drawTo s2 u attr (drawBox u (x0 - 1) (y0 - 1) (x1 + 1) (y1 + 1)) } else s2
+    ({ s3 with view := u.set x0 y0 x1 y1 absolute }, none)
+
+/-- the same statement with the attribute checks made lazily inside `_set_view`, each right before its box is
+    drawn, i.e. after `graph_view.unset()` (not the code of /repo - a seeded reordering): an attribute outside
+    0..255 still raises Illegal function call, but the viewport has been dropped (and a valid fill already drawn) -/
+def viewExecLazy (s : Screen) (attr : Nat) (x0 y0 x1 y1 : Int) (absolute : Bool) (fill border : Option Int) :
+    Screen × Option Nat :=
+  if s.textMode then (s, some ifc)
+  else if ¬ (0 ≤ x0 ∧ x0 ≤ s.view.W - 1 ∧ 0 ≤ x1 ∧ x1 ≤ s.view.W - 1) then (s, some ifc)
+  else if ¬ (0 ≤ y0 ∧ y0 ≤ s.view.H - 1 ∧ 0 ≤ y1 ∧ y1 ≤ s.view.H - 1) then (s, some ifc)
+  else if x0 = x1 ∨ y0 = y1 then (s, some ifc)
+  else
+    let u := s.view.unset
+    let s1 := { s with view := u }
+    if ¬ attrOk fill then (s1, some ifc) else
+    let s2 := if fill.isSome then { s1 with pages := drawTo s1 u attr (drawBoxFilled u x0 y0 x1 y1) } else s1
+    if ¬ attrOk border then (s2, some ifc) else
+    let s3 := if border.isSome then
+        { s2 with pages := drawTo s2 u attr (drawBox u (x0 - 1) (y0 - 1) (x1 + 1) (y1 + 1)) } else s2
+    ({ s3 with view := u.set x0 y0 x1 y1 absolute }, none)
+
+/-- the statement alphabet with results "state reached, error raised": the statements of `step` (whose errors are all
+    raised by checks that precede the first effect) and VIEW with attribute values -/
+inductive Op where
+  | stmt (st : Stmt)
+  | viewAttr (x0 y0 x1 y1 : Int) (absolute : Bool) (fill border : Option Int)
+
+def exec (s : Screen) (attr : Nat) : Op → Screen × Option Nat
+  | .stmt st =>
+    match step s attr st with
+    | .ok s' => (s', none)
+    | .error e => (s, some e)
+  | .viewAttr x0 y0 x1 y1 a f b => viewExec s attr x0 y0 x1 y1 a f b
+
+/-- a history of such statements; the session goes on after an error with the state the failing statement left -/
+def execAll (s : Screen) (attr : Nat) : List Op → Screen
+  | [] => s
+  | op :: rest => execAll (exec s attr op).1 attr rest
+
 /-- a mode switch in which `Graphics.set_page` is skipped when the requested page equals the remembered active
     page number ("nothing to do"): the fresh viewport of `init_mode` then stays on page 0.  Not the code of
     /repo - a plausible shortcut, kept to show why `set_page` must run unconditionally after `init_mode`. -/
